@@ -1,6 +1,7 @@
 package encoding
 
 import (
+	"strconv"
 	"github.com/b2broker/simplefix-go/fix"
 	zz "github.com/b2broker/simplefix-go/zzverif"
 )
@@ -114,6 +115,60 @@ func H_C01_count() {
 	zz.Assert(err == nil, "C01: ToBytes returned an error")
 	zz.Reach("serialized")
 	zz.Assert(frameOK(out, "8", "9", "35", "10", []byte("FIX.4.4"), []byte("W")), "C01: framing/BodyLength/CheckSum wrong (group count on a digit boundary)")
+}
+
+// H_C17_modify: a message is serialized, then changed through references the application already
+// holds (the value of a body field, a group that gets another entry, a header field that gets
+// un-populated) and serialized again: the second wire form is exactly the new state.
+// params: [what (0 value, 1 group entry, 2 un-populate, 3 all three)]
+func H_C17_modify() {
+	what := zz.Param(0)
+	zz.Class("modify/what=" + strconv.Itoa(what))
+	v1, v2, ev := zz.Bytes(2), zz.Bytes(3), zz.Bytes(1)
+	kv := fix.NewKeyValue("58", fix.NewString(string(v1)))
+	g := fix.NewGroup("268", fix.NewKeyValue("269", &fix.String{}))
+	e0 := g.AsTemplate()
+	_ = e0[0].(*fix.KeyValue).Load().Set("a")
+	g.AddEntry(e0)
+	hk := fix.NewKeyValue("50", fix.NewString("S"))
+	m := fix.NewMessage("8", "9", "10", "35", "FIX.4.4", "W").
+		SetHeader(fix.NewComponent(fix.NewKeyValue("34", fix.NewInt(7)), hk)).
+		SetBody(kv, g).
+		SetTrailer(fix.NewComponent())
+	s := shape{}
+	s.bs, s.mt = "FIX.4.4", "W"
+	out1, err := m.ToBytes()
+	zz.Assert(err == nil, "C17: ToBytes returned an error")
+	exp1 := []field{{"34", []byte("7")}, {"50", []byte("S")}, {"58", v1}, {"268", []byte("1")}, {"269", []byte("a")}}
+	w1 := expectedWire(s, exp1)
+	zz.Assert(len(out1) == len(w1), "C17: first wire form has the wrong length")
+	zz.Assert(zz.EqBytes(out1, w1), "C17: first wire form differs from the populated fields in template order")
+	exp2 := []field{{"34", []byte("7")}}
+	if what == 2 || what == 3 {
+		_ = hk.Value.Set(nil)
+	} else {
+		exp2 = append(exp2, field{"50", []byte("S")})
+	}
+	if what == 0 || what == 3 {
+		_ = kv.Load().Set(string(v2))
+		exp2 = append(exp2, field{"58", v2})
+	} else {
+		exp2 = append(exp2, field{"58", v1})
+	}
+	if what == 1 || what == 3 {
+		e1 := g.AsTemplate()
+		_ = e1[0].(*fix.KeyValue).Load().Set(string(ev))
+		g.AddEntry(e1)
+		exp2 = append(exp2, field{"268", []byte("2")}, field{"269", []byte("a")}, field{"269", ev})
+	} else {
+		exp2 = append(exp2, field{"268", []byte("1")}, field{"269", []byte("a")})
+	}
+	out2, err2 := m.ToBytes()
+	zz.Assert(err2 == nil, "C17: second ToBytes returned an error")
+	zz.Reach("reserialized")
+	w2 := expectedWire(s, exp2)
+	zz.Assert(len(out2) == len(w2), "C17: after a change through a held reference the wire form has the wrong length (stale?)")
+	zz.Assert(zz.EqBytes(out2, w2), "C17: after a change through a held reference the wire form is not the new state")
 }
 
 // H_C01_lowsum: reachability witness - checksums below 100 and below 10 are inside the explored space.
